@@ -738,5 +738,9 @@ Definition compact_fields_okb (defs : list sdef) (d : sdef) (args : list src) : 
     program whose identifiers do not contain the characters [Box<]; decidable per definition) *)
 Definition box_names_okb (defs : list sdef) (d : sdef) : bool :=
   forallb (fun f : sfield =>
-             Bool.eqb (contains "Box<" (render defs (map fst (sd_params d)) (sf_ty f))) (has_box (sf_ty f)))
+             let n := render defs (map fst (sd_params d)) (sf_ty f) in
+             Bool.eqb (contains "Box<" n) (has_box (sf_ty f)) &&
+             (* no identifier of the program ends in [Rc] / [Arc] and carries generics: the source
+                language has no such pointers, the generator boxes on these names as well (F20) *)
+             negb (contains "Rc<" n) && negb (contains "Arc<" n))
           (def_sfields d).
